@@ -145,21 +145,43 @@ func C04(c *Ctx) {
 		if hi > len(gs) {
 			hi = len(gs)
 		}
-		c.c04Chunk(gs[lo:hi], flagSets, rng)
+		c.c04Chunk(gs[lo:hi], flagSets, rng, false)
 		if c.NViol() > 20 {
 			break
 		}
 	}
+	// really left-recursive grammars under the 16 flag sets that contain -support-left-recursion
+	// (the template variant with the left-recursion runtime is only instantiated for them)
+	var lrSets [][]string
+	for _, fs := range flagSets {
+		if hasFlag(fs, "-support-left-recursion") {
+			lrSets = append(lrSets, fs)
+		}
+	}
+	var lgs []*gast.Grammar
+	for i := 0; i < c.N(4, 40); i++ {
+		lgs = append(lgs, genLR(rng, i%2 == 1))
+	}
+	for lo := 0; lo < len(lgs); lo += chunk {
+		hi := lo + chunk
+		if hi > len(lgs) {
+			hi = len(lgs)
+		}
+		c.c04Chunk(lgs[lo:hi], lrSets, rng, true)
+	}
+	// recovery operators whose recovery expression holds inline code blocks, with labels bound at
+	// the level of the operator (guarded and recovery expression share one label scope)
+	c.c04Chunk(c04RecoveryStrata(), flagSets, rng, false)
 	c.c04Unicode()
 	c.runKnownC04()
 	c.runKnownC09()
 }
 
-func (c *Ctx) c04Chunk(gs []*gast.Grammar, flagSets [][]string, rng *rand.Rand) {
+func (c *Ctx) c04Chunk(gs []*gast.Grammar, flagSets [][]string, rng *rand.Rand, lr bool) {
 	for _, g := range gs {
 		g.Finalize()
 	}
-	bt := c.BuildUnits(gs, flagSets, false, nil)
+	bt := c.BuildUnits(gs, flagSets, false, func(int) bool { return lr })
 	defer bt.Close()
 	vet := bt.Vet()
 	var cases []*mon.Case
@@ -237,8 +259,8 @@ func (c *Ctx) c04Chunk(gs []*gast.Grammar, flagSets [][]string, rng *rand.Rand) 
 		if u.GIdx == 0 && len(u.Flags) >= 4 {
 			c.Sample(map[string]any{"grammar": gast.Short(u.G), "flags": u.FlagID, "input": fmt.Sprintf("%q", inputs[u.GIdx]), "value": trunc(r.Val), "compiled": true, "vet": "clean"})
 		}
-		if !u.HasFlag("-optimize-grammar") {
-			m := ref.Run(u.G, inputs[u.GIdx], ref.Opts{StepCap: 200000})
+		if !u.HasFlag("-optimize-grammar") && !hasRecovery(u.G) {
+			m := ref.Run(u.G, inputs[u.GIdx], ref.Opts{StepCap: 200000, LR: lr})
 			if !m.Capped && r.Val != m.ValCanon {
 				c.Report(&Violation{Class: "C04/runs-wrong", Summary: fmt.Sprintf("the compiled parser returns %s, the model %s; flags [%s] grammar %q input %q", trunc(r.Val), trunc(m.ValCanon), u.FlagID, gast.Short(u.G), inputs[u.GIdx]), Grammar: u.Text, Flags: u.Flags, Input: inputs[u.GIdx]})
 			}
@@ -311,6 +333,35 @@ func c04Strata() []*gast.Grammar {
 		{Name: "KEY", Expr: act(gast.L("!"), 4)},
 	}}
 	return []*gast.Grammar{g1, g2, g3}
+}
+
+// hasRecovery: the labels a block inside a recovery expression sees at run time are those of the
+// throw site; only the static side (methods, parameters, compile, vet) is decided here for them.
+func hasRecovery(g *gast.Grammar) bool {
+	has := false
+	for _, r := range g.Rules {
+		gast.Walk(r.Expr, func(e *gast.Expr) {
+			if e.Kind == gast.Recovery {
+				has = true
+			}
+		})
+	}
+	return has
+}
+
+func c04RecoveryStrata() []*gast.Grammar {
+	act := func(e *gast.Expr, id int) *gast.Expr { return gast.A(e, id, mon.Spec{}) }
+	word := func() *gast.Expr { return gast.Plus(gast.Cl(gast.Chars("ab"))) }
+	g1 := &gast.Grammar{Rules: []*gast.Rule{
+		{Name: "Item", Expr: act(gast.Rec(gast.S(gast.Lab("key", word()), gast.L("="), gast.Lab("val", gast.C(word(), gast.Thr("L1")))),
+			gast.S(gast.Lab("skipped", gast.Star(gast.Cl(&gast.ClassSpec{Chars: []rune(";"), Inverted: true}))), gast.AndC(2, mon.Spec{}), act(gast.L(""), 3)), "L1"), 1)},
+	}}
+	g2 := &gast.Grammar{Rules: []*gast.Rule{
+		{Name: "S", Expr: gast.Star(gast.C(gast.Ref("P"), gast.Dot()))},
+		{Name: "P", Expr: gast.Rec(gast.Rec(gast.S(gast.Lab("a", gast.L("<")), gast.Lab("b", gast.C(word(), gast.Thr("L2"), gast.Thr("L1"))), act(gast.L(">"), 1)),
+			act(gast.Lab("d", gast.L("?")), 2), "L1"), gast.S(gast.St(3, mon.Spec{S: 1}), gast.Lab("e", gast.Opt(gast.L("!"))), act(gast.L(""), 4)), "L2")},
+	}}
+	return []*gast.Grammar{g1, g2}
 }
 
 func (c *Ctx) runKnownC04() {
